@@ -31,7 +31,8 @@ CONSTANTS AllKeys,     \* key universe (strings); must contain "scan_id", "plan_
           PKeys,       \* keys the initial persistent metadata may define      (model checking only)
           OKeys,       \* keys an open_run message may define                  (model checking only)
           KKeys,       \* keys the RE(...) call may define                     (model checking only)
-          Vals,        \* values used by the layers in model checking (positive integers)
+          PVals, OVals, KVals,   \* values used by the three layers in model checking (positive integers; disjoint
+                       \* sets tag each value with its layer, equal sets allow any coincidence)
           Idents,      \* identities explored: 10 * plan_type + plan_name (two positive digits)
           VModes,      \* subset of {"accept", "reject"}
           NModes,      \* subset of {"identity", "rename", "reject"}
@@ -48,11 +49,11 @@ ASSUME Variant \in {"fixed", "asfound", "either"}
 
 Zero == [k \in AllKeys |-> 0]
 Cells(m) == Cardinality({k \in AllKeys : m[k] # 0})
-MapsOver(S) == {[k \in AllKeys |-> IF k \in S THEN f[k] ELSE 0] : f \in [S -> Vals \cup {0}]}
+MapsOver(S, V) == {[k \in AllKeys |-> IF k \in S THEN f[k] ELSE 0] : f \in [S -> V \cup {0}]}
 \* zero-arity constant definitions: TLC evaluates them once
-PMaps == MapsOver(PKeys)
-OMaps == MapsOver(OKeys)
-KMaps == MapsOver(KKeys)
+PMaps == MapsOver(PKeys, PVals)
+OMaps == MapsOver(OKeys, OVals)
+KMaps == MapsOver(KKeys, KVals)
 \* the maps with at most n defined keys (so that Next enumerates only the admissible ones)
 PLe == [n \in 0..MaxCells |-> {m \in PMaps : Cells(m) <= n}]
 OLe == [n \in 0..MaxCells |-> {m \in OMaps : Cells(m) <= n}]
